@@ -764,7 +764,7 @@ var standingAssumptions = []string{
 	"machine integers are mathematical integers in arith-int functions (no overflow obligations); arith-bv functions are exact",
 	"bodies of functions outside /repo are replaced by assumed contracts or havoc; reflection, unsafe, cgo/syscalls, finalizers/GC timing, OOM are not modelled",
 	"no unsafe aliasing between opaque pointers and struct fields; sequentially consistent sync/atomic",
-	"appencryption and server/go build against module-cache copies of their sibling modules (byte-identical to /repo's copies at pin time)",
+	"go/appencryption builds against /repo/go/securememory (its go.work pulls in cmd/example, whose replace directive applies to the workspace); server/go builds against the module-cache copies appencryption@v0.7.1 and securememory@v0.1.6, so what is proved about /repo/go/appencryption reaches the sidecar only as assumed interface contracts",
 }
 
 func backendSummary(m map[string]int) string {
